@@ -46,6 +46,15 @@ func modeToPB(m string) pb.ReplicationMode {
 	return 0
 }
 
+// normalizeMode maps every spelling the configuration accepts (a value persisted by an older leader may still be
+// "dr_auto_sync") to the internal name; an unknown mode is kept as it is.
+func normalizeMode(m string) string {
+	if n := config.NormalizeReplicationMode(m); n != "" {
+		return n
+	}
+	return m
+}
+
 // FileReplicater is the interface that can save important data to all cluster
 // nodes.
 type FileReplicater interface {
@@ -82,6 +91,7 @@ type ModeManager struct {
 
 // NewReplicationModeManager creates the replicate mode manager.
 func NewReplicationModeManager(config config.ReplicationModeConfig, storage *core.Storage, cluster opt.Cluster, fileReplicater FileReplicater) (*ModeManager, error) {
+	config.ReplicationMode = normalizeMode(config.ReplicationMode)
 	m := &ModeManager{
 		initTime:              time.Now(),
 		config:                config,
@@ -104,6 +114,7 @@ func NewReplicationModeManager(config config.ReplicationModeConfig, storage *cor
 func (m *ModeManager) UpdateConfig(config config.ReplicationModeConfig) error {
 	m.Lock()
 	defer m.Unlock()
+	config.ReplicationMode = normalizeMode(config.ReplicationMode)
 	// If mode change from 'majority' to 'dr-auto-sync', switch to 'sync_recover'.
 	if m.config.ReplicationMode == modeMajority && config.ReplicationMode == modeDRAutoSync {
 		old := m.config
